@@ -926,3 +926,81 @@ func VH_C12_pdf_dash_Q() {
 	}
 	vhC12Run(draws)
 }
+
+// aba: three stroke-only draws A, B, A with the same style object for the first and the third:
+// a cache that is not updated on one branch (e.g. when going back to a solid line) makes the
+// third draw compare equal to a stale value.  B differs from A in dashes (solid), width, cap and
+// join as chosen.
+func VH_C12_pdf_aba_Q() {
+	mkStyle := func(dashed bool, w float64, capK, joinK int) (canvas.Style, int, int, float64, bool) {
+		st := canvas.DefaultStyle
+		st.Fill = canvas.Paint{}
+		st.Stroke = canvas.Paint{Color: vhC12Blue}
+		st.StrokeWidth = w
+		capper, capN := vhC12Capper(capK)
+		joiner, joinN, miter, joinOK := vhC12Joiner(joinK)
+		st.StrokeCapper = capper
+		st.StrokeJoiner = joiner
+		if dashed {
+			st.DashOffset, st.Dashes = vhC12Dashes(2)
+		}
+		return st, capN, joinN, miter, joinOK
+	}
+	wA, wB := vhC12Width(), vhC12Width()
+	capA, joinA := 0, vChoose(0, 1)
+	capB, joinB := capA, joinA
+	if vChoose(0, 1) == 1 {
+		capB, joinB = (capA+1)%3, (joinA+1)%3
+	}
+	dashedB := vChoose(0, 1) == 1
+	stA, capNA, joinNA, miterA, okA := mkStyle(true, wA, capA, joinA)
+	stB, capNB, joinNB, miterB, okB := mkStyle(dashedB, wB, capB, joinB)
+	draws := []*vhC12Draw{}
+	for k := 0; k < 3; k++ {
+		st, capN, joinN, miter, ok := stA, capNA, joinNA, miterA, okA
+		if k == 1 {
+			st, capN, joinN, miter, ok = stB, capNB, joinNB, miterB, okB
+		}
+		d := &vhC12Draw{path: vhC12Path(false), style: st, m: canvas.Identity}
+		vhC12Finish(&d.want, st, 1, true, ok, capN, joinN, miter)
+		draws = append(draws, d)
+	}
+	vhC12Run(draws)
+}
+
+// ops: one or two draws over the full matrix closed x fill rule x {fill, stroke, both} x
+// {same alpha, different alpha}: the painting operator must realise the requested fill rule and
+// close the stroked subpath exactly when the path is closed.
+func VH_C12_pdf_ops_Q() {
+	draws := []*vhC12Draw{}
+	n := 1 + vChoose(0, 1)
+	for k := 0; k < n; k++ {
+		mode := vChoose(0, 2)
+		closed := vChoose(0, 1) == 1
+		rule := canvas.NonZero
+		if vChoose(0, 1) == 1 {
+			rule = canvas.EvenOdd
+		}
+		st := canvas.DefaultStyle
+		st.Fill = canvas.Paint{}
+		st.Stroke = canvas.Paint{}
+		if mode != 1 {
+			st.Fill = canvas.Paint{Color: vhC12Red}
+		}
+		if mode != 0 {
+			st.Stroke = canvas.Paint{Color: vhC12Blue}
+			if vChoose(0, 1) == 1 {
+				st.Stroke = canvas.Paint{Color: color.RGBA{0, 0, 100, 128}} // translucent: alpha differs from the fill's
+			}
+		}
+		st.StrokeWidth = 1.5
+		st.StrokeJoiner = canvas.BevelJoin
+		st.FillRule = rule
+		d := &vhC12Draw{path: vhC12Path(closed), style: st, m: canvas.Identity}
+		d.want.closed = closed
+		vhC12Finish(&d.want, st, 1, true, true, 0, 2, 0)
+		d.want.hasFill, d.want.hasStroke = mode != 1, mode != 0
+		draws = append(draws, d)
+	}
+	vhC12Run(draws)
+}
